@@ -16,6 +16,11 @@ VOID_PROGRAMS = ["pushv:1:9,pushv:2:20,pushv:3:9,pushv:4:16|popv,popv,popv,popv;
                  "pushv:1:1,pushv:2:8,pushv:3:7,pushv:4:17,pushv:5:24,pushv:6:3|popv,popv,popv,popv,popv,popv;drainv",
                  "pushv:1:16,pushv:2:16,pushv:3:16,pushv:4:16,pushv:5:16|popv,popv,popv,popv,popv;drainv"]
 # a record larger than half the capacity pushed at an offset where it fits neither before nor after the wrap (finding 7.11)
+# reserve / fill / publish as separate steps (back(), memcpy, push_back()), records that wrap the end while the consumer is caught up
+POPS = ",".join(["popv"] * 12)   # the consumer polls: it must be caught up when the producer wraps
+VOID2_PROGRAMS = ["pushv2:1:9,pushv2:2:17,pushv2:3:9,pushv2:4:17,pushv2:5:17,pushv2:6:9|%s;drainv" % POPS,   # real sizes 24/32: the tail is skipped at 56 (cap 64), 80 (cap 96), 112 (cap 128)
+                  "pushv:1:9,pushv2:2:17,pushv2:3:9,pushv:4:17,pushv2:5:17|%s;drainv" % POPS,
+                  "pushv2:1:40,pushv2:2:16,pushv2:3:40|%s;drainv" % POPS]
 VOID_BIG = ["pushv:1:9,pushv:2:40,pushv:2:40|popv,popv;drainv"]
 CONSTS = ["AbsInit <- RInit", "Step <- RStep", "XStep <- RXStep", "FinalOk <- RFinal"]
 
@@ -31,9 +36,9 @@ def run(ctx):
     q = ctx.quick()
     deep = [("dfs", 8000 if q else 500000, 3 if q else 4)]
     vp = VOID_PROGRAMS + [gen_void(ctx.rng) for _ in range(2 if q else 12)]
-    jobs = make_jobs(ctx, "ring", [v for v in TYPED if v not in SMALL], TYPED_PROGRAMS) + make_jobs(ctx, "ring", SMALL, SMALL_PROGRAMS) + make_jobs(ctx, "ring", VOID, vp) + make_jobs(ctx, "ring", ["ring_void_64"], VOID_BIG) + \
+    jobs = make_jobs(ctx, "ring", [v for v in TYPED if v not in SMALL], TYPED_PROGRAMS) + make_jobs(ctx, "ring", SMALL, SMALL_PROGRAMS) + make_jobs(ctx, "ring", VOID, vp) + make_jobs(ctx, "ring", VOID[:3], VOID2_PROGRAMS) + make_jobs(ctx, "ring", ["ring_void_64"], VOID_BIG) + \
         make_jobs(ctx, "ring", TYPED[:3], ["push:1,push:2,push:3|pop,pop,pop;drain"], strat=deep) + make_jobs(ctx, "ring", ["ring_int_4", "ring_int_np2_5"], ["pushn:1:2,push:3|pop,popn:2;drain"], strat=deep) + \
-        make_jobs(ctx, "ring", VOID[:1], ["pushv:1:9,pushv:2:20,pushv:3:9|popv,popv,popv;drainv"], strat=deep)
+        make_jobs(ctx, "ring", VOID[:1], ["pushv:1:9,pushv:2:20,pushv:3:9|popv,popv,popv;drainv", "pushv2:1:9,pushv2:2:17,pushv2:3:9|popv,popv,popv,popv,popv,popv;drainv"], strat=deep)
     vlib.run_jobs(ctx, jobs)
     vlib.validate_histories(ctx, jobs, "SpscRing", CONSTS, max_thread=2)
     ctx.impl_runs.append({"driver": "ring", "variants": TYPED + VOID, "strategies": strategies(ctx)})
